@@ -192,6 +192,16 @@ def weight_function_positive(U, p, w, depth=5):
     return all(len(b) == p + 1 and positive(b, depth) for b in pieces)
 
 
+@st.composite
+def weight_magnitude(draw, c):
+    """The same rational curve with all its weights multiplied by a common factor (weights are homogeneous):
+    one case in three.  Tolerance decisions must not depend on that factor."""
+    if c.get("w") is not None and draw(st.integers(0, 2)) == 0:
+        f = draw(st.sampled_from([F(1, 10 ** 4), F(10 ** 4), F(1, 1000), F(10 ** 6), F(1, 10 ** 6)]))
+        c = dict(c, w=[x * f for x in c["w"]])
+    return c
+
+
 def breaks_of(U):
     out = []
     for u in U:
